@@ -406,6 +406,7 @@ def run_check(mod, prop, tier, seed, a, t0):
             e = kf_by_id.get(k, {})
             print(f"KNOWN-FINDING: property={pid} {k}: {e.get('what', '')} [bounded part {bo['name']}]")
     seen = set()
+    replay_memo = {}
     for t, v in refuted:
         key = ((t.name if t else "syntactic"), v["name"])
         if key in seen:
@@ -419,7 +420,10 @@ def run_check(mod, prop, tier, seed, a, t0):
             try:
                 case = mod.replay_case(t, v)
                 if case is not None:
-                    obs = run_native(case["family"], [case["case"]])[0]
+                    ck = json.dumps(case, sort_keys=True, default=str)
+                    if ck not in replay_memo:
+                        replay_memo[ck] = run_native(case["family"], [case["case"]])[0]
+                    obs = replay_memo[ck]
                     rp["family"] = case["family"]
                     rp["native_case"] = case["case"]
                     rp["observed"] = obs
